@@ -90,6 +90,9 @@ func c04(r *core.Run) {
 	if sa, se := queueEngine(r, "R7"); se != nil {
 		c01Restart(r, "R7", sa, root)
 		c02WorkQueueShape(r, "R9", sa, root)
+		r.Rule("R12", "no queued request is dropped or handled twice inside a group (shared with C02.Q1 / Q2): a work item's callback queue is only ever tail-appended with the submitted callback and read by len / index in the drain loop, whose counter starts at 0, is compared with the re-loaded length and advances by one per call; a drain that re-slices the queue while callbacks are still being read from its backing array lets a later append overwrite a pending request's callback (never answered) with another one (answered twice)", 6)
+		c02GroupQueue(r, "R12", sa, root)
+		c02Drain(r, "R12", sa)
 	}
 	coveringRule(r, "R8")
 	c04NoBoundsPanic(r)
@@ -99,103 +102,7 @@ func c04(r *core.Run) {
 	// ---- R0 funnel ------------------------------------------------------
 	funnels := map[*ssa.Function]bool{}
 	for _, tn := range requestTypes {
-		m := models[tn]
-		if m == nil {
-			continue
-		}
-		_, setters, _ := flagOf(p, "", tn)
-		// who-may-write(flag): stores anywhere in the root package
-		acc := core.FieldAccesses(root, func(f core.Field) bool { return f == m.flag })
-		writers := map[string]bool{}
-		for _, a := range acc {
-			if a.Write {
-				// the flag's address handed to a helper that only reads through it is a read
-				if strings.HasPrefix(a.Kind, "addr-call") {
-					if c, ok := a.Instr.(ssa.CallInstruction); ok {
-						if cal := c.Common().StaticCallee(); cal != nil && len(cal.Blocks) > 0 {
-							readOnly := true
-							for i, arg := range c.Common().Args {
-								if arg != a.Addr || i >= len(cal.Params) {
-									continue
-								}
-								prm := cal.Params[i]
-								if prm.Referrers() != nil {
-									for _, rf := range *prm.Referrers() {
-										switch x := rf.(type) {
-										case *ssa.UnOp, *ssa.DebugRef:
-										case *ssa.Store:
-											if x.Addr == ssa.Value(prm) || x.Val == ssa.Value(prm) {
-												readOnly = false
-											}
-										default:
-											readOnly = false
-										}
-									}
-								}
-							}
-							if readOnly {
-								continue
-							}
-						}
-					}
-				}
-				writers[core.FuncName(a.Fn)] = true
-			}
-		}
-		ws := core.SortedKeys(writers)
-		if len(setters) != 1 {
-			r.Bad("R0", tn, "single-flag-writer", "-", fmt.Sprintf("flag %s is set true by %d methods", m.flag, len(setters)))
-			continue
-		}
-		funnel := replyFunnel(p, setters[0])
-		funnels[funnel] = true
-		inFunnel := map[string]bool{}
-		for _, h := range p.Helpers(funnel) {
-			inFunnel[core.FuncName(h)] = true
-		}
-		onlyFunnel := len(ws) > 0
-		for _, w := range ws {
-			if !inFunnel[w] {
-				onlyFunnel = false
-			}
-		}
-		r.Check(onlyFunnel, "R0", core.FuncName(funnel), "who-may-write("+m.flag.String()+")", p.Pos(funnel.Pos()),
-			"only writer is the funnel", "flag written by "+strings.Join(ws, ", "))
-		// inside the funnel: flag test then store(true) then publish
-		var store *ssa.Store
-		for _, h := range p.Helpers(funnel) {
-			for _, b := range h.Blocks {
-				for _, in := range b.Instrs {
-					if st, ok := in.(*ssa.Store); ok && isConstBool(st.Val, true) {
-						if f, ok := core.FieldOf(st.Addr); ok && f == m.flag {
-							store = st
-						}
-					}
-				}
-			}
-		}
-		guarded := false
-		if store != nil {
-			for _, e := range ctxEdges(p, store, funnel, 0) {
-				for _, d := range impliedConds(e, 0) {
-					if d == "!"+m.flag.String() {
-						guarded = true
-					}
-				}
-			}
-		}
-		r.Check(guarded, "R0", core.FuncName(funnel), "store-true-guarded-by-!flag", p.InstrPos(store),
-			"store of true is dominated by the false edge of the flag test (second reply is refused)", "the flag is set without first testing it: a second reply would be published")
-		pubs := invokes([]*ssa.Function{funnel}, "Conn", "Publish")
-		for _, pc := range pubs {
-			ok := store != nil && p.DominatesIn(funnel, store, pc)
-			r.Check(ok, "R0", core.FuncName(funnel), "publish-after-store-true", p.InstrPos(pc),
-				"Conn.Publish dominated by flag test + store(true)", "Conn.Publish not dominated by the flag store: may publish twice")
-		}
-		if tn != "getRequest" && len(pubs) != 1 {
-			r.Bad("R0", core.FuncName(funnel), "exactly-one-publish", p.Pos(funnel.Pos()), fmt.Sprintf("%d Conn.Publish calls in the funnel", len(pubs)))
-		}
-		// the true edge must not publish: every Publish is dominated by !flag (covered above via store dominance)
+		c04ReplyFunnel(r, "R0", tn, models, root, funnels)
 	}
 	// who-may-publish: all Conn.Publish sites of the root package
 	pubSites := invokes(root, "Conn", "Publish")
@@ -444,6 +351,37 @@ func c04(r *core.Run) {
 					"replied or dispatched on every path", "state="+stateStr(st)+": request processing can return without a reply and without dispatching")
 			}
 			delete(mReq.extraMust, disp[0])
+			// the dispatcher is only reached with a routed handler: the "access request without an
+			// access handler stays unanswered" exemption speaks of a registered pattern; a request
+			// whose name matches no pattern is answered (not found) before the dispatch
+			{
+				var mprm *ssa.Parameter
+				for _, prm := range proc.Params {
+					if pt, ok := prm.Type().(*types.Pointer); ok && core.TypeName(pt.Elem()) == "Match" {
+						mprm = prm
+					}
+				}
+				for _, c := range core.Calls(proc) {
+					if c.Common().StaticCallee() != disp[0] {
+						continue
+					}
+					routed := mprm == nil // no match parameter: nothing to test
+					for _, ed := range dominatingEdges(c) {
+						ci := core.Cond(ed.If.Cond)
+						if ci.Kind != "nilcmp" || mprm == nil || core.Strip(ci.X) != ssa.Value(mprm) {
+							continue
+						}
+						nonNil := (ci.Op == token.NEQ) == (ed.Succ == 0)
+						if ci.Negate {
+							nonNil = !nonNil
+						}
+						if nonNil {
+							routed = true
+						}
+					}
+					r.Check(routed, "R3", core.FuncName(proc), "dispatch-only-with-a-routed-handler", p.InstrPos(c), "the dispatcher is reached only on the edge where a handler pattern matched", "the dispatcher can be reached for a request whose resource name matched no registered pattern (the nil match is replaced instead of answered): such an access request falls into the 'no access handler' branch and is never answered, although that exemption only covers registered patterns")
+				}
+			}
 			// R6: nothing between dequeue and the dispatcher's recover may panic explicitly: request
 			// processing runs on a worker with no recover of its own.
 			pm := &panicModel{m: mReq, memo: map[panicKey]string{}}
@@ -1061,4 +999,108 @@ func c04LoggerNilSafe(r *core.Run, rule string) {
 			r.Check(guarded, rule, core.FuncName(fn), "logger."+c.Common().Method.Name()+"-behind-non-nil-test", p.InstrPos(c), "the logger was tested non-nil on every path to the call", "the logger is called on a path on which it was not tested non-nil (SetLogger(nil) is documented): a nil-interface call panics - in the recover closure of request processing or on the listener goroutine this kills the process and the request stays unanswered")
 		}
 	}
+}
+
+// c04ReplyFunnel: the reply funnel of one request type (C04.R0; shared with
+// C15.R2 for the query request).
+func c04ReplyFunnel(r *core.Run, rule, tn string, models map[string]*replyModel, root []*ssa.Function, funnels map[*ssa.Function]bool) {
+	p := r.P
+	m := models[tn]
+	if m == nil {
+		return
+	}
+	_, setters, _ := flagOf(p, "", tn)
+	// who-may-write(flag): stores anywhere in the root package
+	acc := core.FieldAccesses(root, func(f core.Field) bool { return f == m.flag })
+	writers := map[string]bool{}
+	for _, a := range acc {
+		if a.Write {
+			// the flag's address handed to a helper that only reads through it is a read
+			if strings.HasPrefix(a.Kind, "addr-call") {
+				if c, ok := a.Instr.(ssa.CallInstruction); ok {
+					if cal := c.Common().StaticCallee(); cal != nil && len(cal.Blocks) > 0 {
+						readOnly := true
+						for i, arg := range c.Common().Args {
+							if arg != a.Addr || i >= len(cal.Params) {
+								continue
+							}
+							prm := cal.Params[i]
+							if prm.Referrers() != nil {
+								for _, rf := range *prm.Referrers() {
+									switch x := rf.(type) {
+									case *ssa.UnOp, *ssa.DebugRef:
+									case *ssa.Store:
+										if x.Addr == ssa.Value(prm) || x.Val == ssa.Value(prm) {
+											readOnly = false
+										}
+									default:
+										readOnly = false
+									}
+								}
+							}
+						}
+						if readOnly {
+							continue
+						}
+					}
+				}
+			}
+			writers[core.FuncName(a.Fn)] = true
+		}
+	}
+	ws := core.SortedKeys(writers)
+	if len(setters) != 1 {
+		r.Bad(rule, tn, "single-flag-writer", "-", fmt.Sprintf("flag %s is set true by %d methods", m.flag, len(setters)))
+		return
+	}
+	funnel := replyFunnel(p, setters[0])
+	funnels[funnel] = true
+	inFunnel := map[string]bool{}
+	for _, h := range p.Helpers(funnel) {
+		inFunnel[core.FuncName(h)] = true
+	}
+	onlyFunnel := len(ws) > 0
+	for _, w := range ws {
+		if !inFunnel[w] {
+			onlyFunnel = false
+		}
+	}
+	r.Check(onlyFunnel, rule, core.FuncName(funnel), "who-may-write("+m.flag.String()+")", p.Pos(funnel.Pos()),
+		"only writer is the funnel", "flag written by "+strings.Join(ws, ", "))
+	// inside the funnel: flag test then store(true) then publish
+	var store *ssa.Store
+	for _, h := range p.Helpers(funnel) {
+		for _, b := range h.Blocks {
+			for _, in := range b.Instrs {
+				if st, ok := in.(*ssa.Store); ok && isConstBool(st.Val, true) {
+					if f, ok := core.FieldOf(st.Addr); ok && f == m.flag {
+						store = st
+					}
+				}
+			}
+		}
+	}
+	guarded := false
+	if store != nil {
+		for _, e := range ctxEdges(p, store, funnel, 0) {
+			for _, d := range impliedConds(e, 0) {
+				if d == "!"+m.flag.String() {
+					guarded = true
+				}
+			}
+		}
+	}
+	r.Check(guarded, rule, core.FuncName(funnel), "store-true-guarded-by-!flag", p.InstrPos(store),
+		"store of true is dominated by the false edge of the flag test (second reply is refused)", "the flag is set without first testing it: a second reply would be published")
+	pubs := invokes([]*ssa.Function{funnel}, "Conn", "Publish")
+	for _, pc := range pubs {
+		ok := store != nil && p.DominatesIn(funnel, store, pc)
+		r.Check(ok, rule, core.FuncName(funnel), "publish-after-store-true", p.InstrPos(pc),
+			"Conn.Publish dominated by flag test + store(true)", "Conn.Publish not dominated by the flag store: may publish twice")
+	}
+	if tn != "getRequest" && len(pubs) != 1 {
+		r.Bad(rule, core.FuncName(funnel), "exactly-one-publish", p.Pos(funnel.Pos()), fmt.Sprintf("%d Conn.Publish calls in the funnel", len(pubs)))
+	}
+	// the true edge must not publish: every Publish is dominated by !flag (covered above via store dominance)
+
 }
